@@ -19,6 +19,7 @@ func c10(c *core.Ctx) map[string]interface{} {
 	r10paths(c, fn)
 	r10ie(c)
 	r6count(c) // the DL COUNT estimate is only as good as the counter type (shared with C06)
+	r8dispatchX(c, buildNasModel(c)) // the recovered message is the one its type octet names (shared with C08)
 	include(c, "C07")
 	return nil
 }
